@@ -146,7 +146,27 @@ class Interp:
         fields = [p for p in pl['p'] if p['k'] != 'deref']
         if not fields:
             return st.get(pl['l'])
-        return self.c.place(self.f, pl, bi, self)
+        v = self.c.place(self.f, pl, bi, self)
+        if v is not None:
+            return v
+        # a component of a value built on this path: `(x as Variant).i` of ('var', adt, Variant, payload), `.i` of ('tup', vals)
+        v = st.get(pl['l'])
+        for p in fields:
+            if v is None:
+                return None
+            if p['k'] == 'downcast':
+                if v[0] != 'var' or (p.get('n') is not None and p['n'] != v[2]):
+                    return None
+            elif p['k'] == 'field':
+                if v[0] == 'var' and len(v) > 3 and p['i'] < len(v[3]):
+                    v = v[3][p['i']]
+                elif v[0] == 'tup' and p['i'] < len(v[1]):
+                    v = v[1][p['i']]
+                else:
+                    return None
+            else:
+                return None
+        return v
 
     def operand(self, o, bi, st):
         k = o['o']
@@ -195,6 +215,10 @@ class Interp:
             kd = rv['kind']
             if kd.get('k') == 'adt' and not rv['ops']:
                 return ('var', kd['path'], kd['variant'])
+            if kd.get('k') == 'adt' and kd.get('variant') is not None:
+                return ('var', kd['path'], kd['variant'], tuple(self.operand(o, bi, st) for o in rv['ops']))
+            if kd.get('k') == 'tuple':
+                return ('tup', tuple(self.operand(o, bi, st) for o in rv['ops']))
         return None
 
     # ---- exploration
@@ -292,6 +316,8 @@ class Interp:
         if s == 'not' and len(args) == 1 and args[0] is not None:
             return ('not', args[0])
         if s == 'branch' and len(args) == 1 and args[0] is not None and args[0][0] == 'var' and args[0][2] in ('Ok', 'Some', 'Err', 'None'):
+            if len(args[0]) > 3 and args[0][2] in ('Ok', 'Some'):
+                return ('var', 'std::ops::ControlFlow', 'Continue', args[0][3])
             return ('var', 'std::ops::ControlFlow', 'Continue' if args[0][2] in ('Ok', 'Some') else 'Break')
         return None
 
